@@ -2,11 +2,15 @@
 """Run the pinned test suite of /repo (guard off) and compare with BASELINE.json stable_pass.
 usage: baseline_check.py [repo_dir]   exit 0 iff every stable_pass test passes."""
 import json, os, subprocess, sys, tempfile, xml.etree.ElementTree as ET
-repo = sys.argv[1] if len(sys.argv) > 1 else '/repo'
+src = sys.argv[1] if len(sys.argv) > 1 else '/repo'
 base = json.load(open('/root/.vp/BASELINE.json'))
-with tempfile.TemporaryDirectory() as td:
+# run in a scratch copy outside /repo and /verif: pytest/hypothesis write caches (.hypothesis example
+# database, .benchmarks) into the working directory, which would pollute the tree under test
+with tempfile.TemporaryDirectory(dir='/var/tmp') as td:
+    repo = os.path.join(td, 'repo')
+    subprocess.run(['rsync', '-a', '--exclude', '.git', '--exclude', '.hypothesis', src.rstrip('/') + '/', repo + '/'], check=True)
     jx = os.path.join(td, 'j.xml')
-    env = dict(os.environ); env.pop('STATIC_FRAME_VERIF', None)
+    env = dict(os.environ); env.pop('STATIC_FRAME_VERIF', None); env['TMPDIR'] = td
     subprocess.run(['/venv/bin/python', '-m', 'pytest', '-q', '-p', 'no:cacheprovider', '--timeout=900',
                     '--continue-on-collection-errors', '-n', '12', f'--junitxml={jx}'],
                    cwd=repo, env=env, stdout=subprocess.DEVNULL, stderr=subprocess.DEVNULL)
